@@ -1,18 +1,88 @@
-(* C04 — no false suspicion in a healthy cluster (placeholder header; theorems below). *)
+(* C04 — no false suspicion in a healthy cluster.
+   Models: Model/Core.v (one node), Model/Cluster.v (N nodes + everything ever put on the network),
+   Model/Probe.v (why a probe of a responsive member succeeds). *)
 From Coq Require Import List NArith ZArith Bool.
 Import ListNotations.
-From VF Require Import Base Probe Probe_proofs.
-Local Open Scope Z_scope.
+From VF Require Import Base Core Core_lemmas Core_inv Healthy_proofs Cluster Cluster_proofs Probe Probe_proofs.
 
-(* an acknowledgement with the probe's own sequence number that arrives before the scaled interval
-   ends makes the probe succeed, whatever else arrives *)
-Theorem C04_ack_in_time_success : forall pi, p_send pi <> 2 ->
+(* The healthy cluster: nodes booted from good configurations with distinct names, an empty network,
+   and then ANY interleaving of gossip transmissions, push/pull snapshots (joins are push/pulls),
+   deliveries of anything ever sent — any number of times, in any order, or never —, UpdateNode, Leave,
+   the passage of time and reaping.  There is no failed-probe step (see C04_ack_in_time_success).
+   Then, in every reachable state and for all events delivered on the way:
+   no node has a suspicion timer, no record is Suspect or Dead, no suspect message and no dead message
+   signed by somebody else is queued anywhere or on the network, no snapshot entry is Suspect/Dead, and the
+   only leave events are for members that have called Leave.  Incarnations are assumed to stay below
+   2^32-1 ([run_ok]), the bound also present in C02. *)
+Theorem C04_no_accusation : forall cs acts,
+  Forall (fun cm => good_cfg (fst cm)) cs -> NoDup (map (fun cm => self (fst cm)) cs) ->
+  run_ok (boot_world cs) acts ->
+  let '(w, evs) := wrun (boot_world cs) acts in
+  (forall c s, In (c, s) (wnodes w) ->
+      timers s = [] /\
+      (forall n r, lk s n = Some r -> rst r <> Suspect /\ rst r <> Dead) /\
+      (forall k m, In (k, m) (bq s) -> accusation (PB m) = false)) /\
+  (forall p, In p (wpool w) -> accusation p = false) /\
+  (forall e, In e evs -> match e with
+                         | EvLeave n _ _ => departed w n = true
+                         | EvPanic => False
+                         | _ => True
+                         end).
+Proof. exact no_accusation_ever. Qed.
+Print Assumptions C04_no_accusation.
+
+(* one step of one node, for any set [dep] of departed names: the inductive core of the above *)
+Theorem C04_step_clean : forall dep c, fixed c = true -> forall s o,
+  clean dep c s -> benign dep c s o ->
+  let '(s', evs) := step c s o in
+  clean dep c s' /\ Forall (ev_quiet dep) evs /\ (leaving s = true -> leaving s' = true)
+  /\ match o with OLeave _ => leaving s' = true | _ => True end.
+Proof. exact step_clean. Qed.
+Print Assumptions C04_step_clean.
+
+(* partial: "every health score stays at zero".  Proved: with no failed probe and no accusation the
+   score can move only while a node processes an alive claim about ITSELF (and then only by a
+   refutation, C02_alive_refuted).  Not proved: that in a healthy cluster every alive claim about a node
+   is an echo of, or older than, the node's own record (a cluster-wide agreement invariant); the
+   implementation is monitored for it (monitor 542). *)
+Theorem C04_score_partial : forall c s inc name addr meta vsn,
+  let '(s', evs) := do_alive c s inc name addr meta vsn false in
+  score s' = score s \/ (name = self c /\ leaving s = false).
+Proof. exact do_alive_score. Qed.
+Print Assumptions C04_score_partial.
+
+(* why there is no failed-probe step: an acknowledgement with the probe's own sequence number that
+   arrives before the scaled interval ends makes the probe succeed, whatever else arrives *)
+Theorem C04_ack_in_time_success : forall pi, (p_send pi <> 2)%Z ->
   (probe_outcome pi = Answered <->
-   (exists t, In (Ack (p_seq pi) t) (p_arrivals pi) /\ t < p_interval pi) \/ tcp_contact pi = true).
+   (exists t, In (Ack (p_seq pi) t) (p_arrivals pi) /\ (t < p_interval pi)%Z) \/ tcp_contact pi = true).
 Proof. exact answered_iff. Qed.
 Print Assumptions C04_ack_in_time_success.
 
-(* the health score cannot leave its range and only moves in the direction of the delta *)
-Theorem C04_score_range : forall mx score delta, 1 <= mx -> 0 <= apply_delta mx score delta <= mx - 1.
+Theorem C04_score_range : forall mx score delta, (1 <= mx -> 0 <= apply_delta mx score delta <= mx - 1)%Z.
 Proof. exact score_range. Qed.
 Print Assumptions C04_score_range.
+
+(* non-vacuity: three nodes; gossip, snapshots, deliveries (some twice), an UpdateNode, a Leave, time, a reap *)
+Definition cfgn (n : N) : cfg :=
+  mkCfg n n [1;5;2;0;0;0]%N 0 30000000000 2 4000000000 6 [24000000000;11381000000;4000000000]%Z 8 true false [] true.
+Definition sched : list wact :=
+  [WGossip 0; WDeliver 1 0; WSnapshot 1; WDeliver 2 0; WDeliver 2 1; WSnapshot 2; WDeliver 0 0; WDeliver 0 1; WDeliver 0 2;
+   WUpdate 1 21%N 100; WGossip 1; WDeliver 0 0; WDeliver 0 1; WLeave 2 100; WGossip 2; WDeliver 0 0; WDeliver 0 1;
+   WDeliver 0 2; WDeliver 0 3; WAdvance 0 50000000000; WReap 0].
+Example C04_nonvacuous :
+  let cs := [(cfgn 1, 10%N); (cfgn 2, 20%N); (cfgn 3, 30%N)] in
+  Forall (fun cm => good_cfg (fst cm)) cs /\ NoDup (map (fun cm => self (fst cm)) cs) /\
+  run_ok (boot_world cs) sched /\
+  let '(w, evs) := wrun (boot_world cs) sched in
+  map (fun cs => members (snd cs)) (wnodes w) =
+    [[(1, (1, 10)); (2, (2, 21))]; [(2, (2, 21)); (1, (1, 10))]; [(2, (2, 20)); (1, (1, 10))]]%N /\
+  evs = [EvJoin 1 1 10; EvJoin 2 2 20; EvJoin 1 1 10; EvJoin 3 3 30; EvJoin 2 2 20; EvUpdate 2 2 21;
+         EvUpdate 2 2 21; EvLeave 3 3 30; EvLeave 3 3 30]%N.
+Proof.
+  cbv zeta. split; [|split; [|split]].
+  - repeat constructor.
+  - cbn. repeat constructor; cbn; intuition discriminate.
+  - vm_compute. repeat split.
+  - vm_compute. split; reflexivity.
+Qed.
